@@ -1,1 +1,24 @@
-"""C09"""
+"""C09 -- proof part from the contracts tagged C09 (token rule, next_token, bound() layering); bounded API-level runs;
+histories on a reused parser object; frame scan for the configuration attributes."""
+
+
+def bounded(tier, seed, info):
+    from bounded.bC09 import run
+    from bounded.bHist import run_parser_histories
+    return run(tier, seed, info) + run_parser_histories('C09', tier, seed)
+
+
+def lemmas(world, reg, tier):
+    from vlib.framescan import scan_item
+    return [config_frame_item('C09')]
+
+
+def config_frame_item(prop):
+    from vlib.framescan import scan_item
+    return scan_item(
+        prop, 'config-assigned-only-by-constructors-and-bound', ['_active_config', '_config'],
+        {'tatsu/contexts/core.py:ParserCore.__init__': 'constructor of a context',
+         'tatsu/contexts/engine.py:ParserEngine.bound': 'the function under contract',
+         'tatsu/peg/base.py:Grammar.__init__': 'constructor of a grammar model (its own configuration, not a context)',
+         'tatsu/boot/bootstrap.py:TatSuBootstrapRules.__init__': 'constructor of the bootstrap rule source'},
+        'frame of the with-body of bound(): nothing but the constructors and bound() assigns ._active_config / ._config')
